@@ -505,6 +505,9 @@ class Gen:
                 if all_sense_ids and self.coin(0.35):
                     s.setdefault('relations', []).append(
                         {'target': rng.choice(all_sense_ids), 'relType': rng.choice(RELS_S), 'meta': self.meta(0.2)})
+                if all_syn_ids and self.coin(0.3):
+                    s.setdefault('relations', []).append(
+                        {'target': rng.choice(all_syn_ids), 'relType': rng.choice(RELS_S_SS), 'meta': self.meta(0.2)})
         # external sense/synset ids referenced as relation targets must be declared external
         synsets = list(new_syn)
         ext_syn = {}
